@@ -83,3 +83,29 @@ package middleware
 //@   requires envReadable
 //@   ensures nonnil: result != nil
 //@   modifies nothing
+
+// ---- adaptive sampler: access discipline (C20) ---------------------------------------------
+// The sampler is shared by all requests. Its fields are race free when `start` is only read and written while
+// the sampler's own mutex is held, and `counter` / `lastRate` are only ever accessed through sync/atomic (no
+// direct load or store, except on a sampler that has not been published yet). Every access in the package is
+// an obligation; the lock is released on return. (The sampling decision itself -- floats, wall clock -- is
+// not specified.)
+//@ fieldguard adaptiveSampler.start read sinceEntry(object) || select(lockHeld, addr(object.Mutex)) == 2 write sinceEntry(object) || select(lockHeld, addr(object.Mutex)) == 2 property C20
+//@ fieldguard adaptiveSampler.counter read sinceEntry(object) write sinceEntry(object) property C20
+//@ fieldguard adaptiveSampler.lastRate read sinceEntry(object) write sinceEntry(object) property C20
+//@ func (*adaptiveSampler).Sample
+//@   params s
+//@   property C20
+//@   requires s != nil && select(lockHeld, addr(s.Mutex)) == 0 && envReadable
+//@   callspec intn params n
+//@       ensures 0 <= result && result < n
+//@   ensures* lock.released: select(lockHeld, addr(s.Mutex)) == 0
+//@   modifies* s.start, atomVal[addr(s.counter)], atomVal[addr(s.lastRate)], lockHeld[addr(s.Mutex)]
+//@   frameprop C20
+//@ func NewAdaptiveSampler
+//@   params maxSamplingRate sampleSize
+//@   property C20
+//@   requires envReadable
+//@   ensures* fresh: typeIs(result, *adaptiveSampler) && fresh(result)
+//@   modifies* nothing
+//@   frameprop C20
